@@ -61,7 +61,12 @@ public:
 		for (auto &i : buffer)
 			i = 0;
 	}
-	constexpr bitset(unsigned long long val) noexcept { buffer[0] = val; }
+	constexpr bitset(unsigned long long val) noexcept {
+		for (auto &i : buffer)
+			i = 0;
+		buffer[0] = val;
+		mask_last_bit();
+	}
 
 	bitset &operator&=(const bitset &rhs) noexcept {
 		for (size_t i = 0; i < buffer_size; i++)
